@@ -2,7 +2,7 @@
 # tools/benign_run.sh Cxx [Cyy ...] -- collects /tmp/benign_Cxx/benign_out/* into /verif/benign/ and runs the quick check of the
 # property against each behaviour-preserving change (expected: rc=0, no VIOLATION line)
 for P in "$@"; do
-  for d in /tmp/benign_$P/benign_out/${P}_b*; do
+  for d in /tmp/benign_$P/benign_out/${P}_b* /tmp/benign2_$P/benign_out/${P}_b*; do
     [ -d "$d" ] || continue
     id=$(basename $d); mkdir -p /verif/benign/$id; cp $d/patch.diff $d/meta.json /verif/benign/$id/ 2>/dev/null
   done
